@@ -34,6 +34,15 @@ def models(tier):
     for c in (0, 1):
         sub += [("m", c, n) for n in ("cer_onlyacct", "cer_onlyauth", "cer_onlyacct@1", "cer_onlyauth@1", "cer_nocommon", "cer_relay@1", "cer_p1")] + [("eof", c)]
     out.append(monitors.ScenarioModel("inbound-peers-sharing-subsets", BASE, sub, MONS, max_socks=2))
+    # stop() while a connection is still waiting for its CER / CEA: the gate stays shut for it during the shutdown window as well
+    out.append(monitors.ScenarioModel("stop-while-awaiting-the-CER", BASE,
+                                      [("stop", False, 3), ("m", 0, "dwr"), ("m", 0, "req"), ("m", 0, "cer_p0"), ("m", 0, "dpa"), ("tick", 1)],
+                                      MONS, max_socks=1, prelude=[("accept",)]))
+    obs_ = copy.deepcopy(BASE)
+    obs_["peers"][0].update({"ips": ["10.1.0.9"], "persistent": True, "reconnect_wait": 30})
+    out.append(monitors.ScenarioModel("stop-while-awaiting-the-CEA", obs_,
+                                      [("stop", False, 3), ("m", 0, "dwr"), ("m", 0, "req"), ("m", 0, "cea_ok"), ("m", 0, "dpa"), ("tick", 1)],
+                                      MONS, max_socks=1, start_plan=["ok"]))
     # traffic that is not a CE message must not postpone the CE timeout (needs depth: small alphabet)
     out.append(monitors.ScenarioModel("inbound-traffic-vs-timeout", BASE,
                                       [("tick", 1), ("m", 0, "dwr"), ("m", 0, "req"), ("m", 0, "cer_p0"), ("m", 0, "cer_nocommon")],
